@@ -518,3 +518,19 @@ C("byte and uint8 identical", "int", "var a byte = 200; var b uint8 = a; var r r
 C("method name mangling unambiguous", "int", "var a A_B; var b A; return a.C() + b.B_C()", 3,
   "type A_B int\ntype A int\nfunc (A_B) C() int { return 1 }\nfunc (A) B_C() int { return 2 }")
 C("unicode identifiers", "int", "größe := 2; return größe * Überall(3)", 12, "func Überall(n int) int { return n * 2 }")
+C("conversion ignoring tags unsupported", "int", "a := Ta{1}; b := Tb(a); return b.X", UNSUPPORTED,
+  "type Ta struct{ X int `a:\"1\"` }\ntype Tb struct{ X int `b:\"2\"` }")
+C("const shift count bound", "int", "return 1 << 1075 >> 1074", COMPILE("shift count"))
+C("const precision bound", "int", "const a = 1 << 400; return a * a >> 799", COMPILE("overflow"))
+C("func typed param", "int", "return apply(dbl, 4)", 8, "func dbl(x int) int { return x * 2 }\nfunc apply(f func(int) int, x int) int { return f(x) }")
+C("anonymous struct", "int", "p := struct{ X, Y int }{1, 2}; q := p; q.X = 5; return p.X + q.X + p.Y", 8)
+C("embedded interface", "int", "var rw RW = &Fl{}; rw.W(3); return rw.R()", 3,
+  "type Rd interface{ R() int }\ntype Wr interface{ W(int) }\ntype RW interface { Rd; Wr }\ntype Fl struct{ v int }\nfunc (f *Fl) R() int { return f.v }\nfunc (f *Fl) W(v int) { f.v = v }")
+C("nil receiver pointer method", "int", "var p *Np; return p.Safe()", 1, "type Np struct{ v int }\nfunc (p *Np) Safe() int { if p == nil { return 1 }; return p.v }")
+C("builtin min unsupported", "int", "return min(1, 2)", UNSUPPORTED)
+C("range over int unsupported", "int", "s := 0; for i := range 3 { s += i }; return s", UNSUPPORTED)
+C("recover unsupported", "int", "defer recover(); return 1", UNSUPPORTED)
+C("local type unsupported", "int", "type L int; var x L = 1; return int(x)", UNSUPPORTED)
+C("error interface", "string", "var e error = &Er{}; return e.Error()", "bad", "type Er struct{}\nfunc (e *Er) Error() string { return \"bad\" }")
+C("const shift precision bound", "int", "return 1 << 1000 >> 999", COMPILE("overflow"))
+C("const shift 1<<511 ok", "int", "return 1 << 511 >> 510", 2)
